@@ -65,6 +65,8 @@ def main():
                 got = ("mutation", exc.what)
             except AnalysisError as exc:
                 got = ("outside", f"{exc.rule} {exc.reason}")
+            except Exception as exc:  # noqa: BLE001 - the evaluator itself fails: the checks end as analysis-broken (exit 2)
+                got = ("outside", f"CRASH {type(exc).__name__}: {exc}")
             if got[0] == "outside":
                 outside += 1
                 print(f"outside fragment  {n}: {got[1][:150]}")
